@@ -1297,6 +1297,10 @@ class ChoicePayloadDecoder(ConstructedPayloadDecoderBase):
             if not isTagged or component is eoo.endOfOctets:
                 break
 
+        if not asn1Object.isValue:
+            raise error.PyAsn1Error(
+                'No alternative chosen for %s' % (asn1Object.__class__.__name__,))
+
         yield asn1Object
 
 
